@@ -199,13 +199,23 @@ def L5(ctx, rule="L5"):
     WRITE = ("tokio::sync::RwLock::<T>::write", "tokio::sync::Mutex::<T>::lock")
     ACQ = ("tokio::sync::RwLock::<T>::write", "tokio::sync::RwLock::<T>::read", "tokio::sync::Mutex::<T>::lock")
 
-    def writes_param(hid):
+    # tokio's RwLock is write-preferring: once any task waits in `write()`, a second `read()` queues behind it - so a read guard
+    # held across another `read()` of the same lock (directly or inside an awaited helper) deadlocks as soon as a writer arrives
+    # in between.  The crate has such writers (the interrupt / failure paths take `write()` to drop the done-sender).
+    READ = ("tokio::sync::RwLock::<T>::read",)
+    has_writer = any(callee_path(t0) == "tokio::sync::RwLock::<T>::write" for b0 in fb.prod_bodies() for _, t0 in b0.calls())
+
+    def writes_param(hid, kinds=WRITE):
         """parameter indices of async fn `hid` whose lock it (transitively) acquires for writing"""
         out = set()
-        for x in m.reach_calls(hid):
+        own_co = hid + "::{closure#0}"
+        bodies_ = set(m.reach_calls(hid))
+        if own_co in fb.bodies and fb.bodies[own_co].kind == "coroutine":
+            bodies_ |= set(m.reach_calls(own_co))      # the body of an `async fn` is its coroutine
+        for x in sorted(bodies_):
             xb = fb.bodies[x]
             for bb2, t2 in xb.calls():
-                if callee_path(t2) in WRITE and t2["args"]:
+                if callee_path(t2) in kinds and t2["args"]:
                     for q in fl.sources_operand(xb, t2["args"][0], (), "prov@" + hid):
                         if q.kind == "param" and q[1] == hid:
                             out.add(q[2])
@@ -225,9 +235,14 @@ def L5(ctx, rule="L5"):
             if p_ in ACQ and d[3]["args"]:
                 acq.append((a, p_, d[1], fl.sources_operand(b, d[3]["args"][0]), None))
             elif p_ in fb.bodies:
-                for pi in sorted(writes_param(p_)):
+                wp_ = writes_param(p_)
+                for pi in sorted(wp_):
                     if pi - 1 < len(d[3]["args"]):
                         acq.append((a, "helper " + short(p_), d[1], fl.sources_operand(b, d[3]["args"][pi - 1]), p_))
+                if has_writer:
+                    for pi in sorted(writes_param(p_, READ) - wp_):
+                        if pi - 1 < len(d[3]["args"]):
+                            acq.append((a, "reading helper " + short(p_), d[1], fl.sources_operand(b, d[3]["args"][pi - 1]), p_))
         for (a1, p1, bb1, l1, h1) in acq:
             if h1 is not None or not l1:
                 continue        # a helper's guards end with the helper
@@ -252,15 +267,18 @@ def L5(ctx, rule="L5"):
             live = b.reachable(a1.ready_bb, avoid=drops) | {a1.ready_bb}
             bad = []
             for (a2, p2, bb2, l2, h2) in acq:
-                if a2 is a1 or not (p2 in WRITE or h2 is not None):
+                if a2 is a1 or not (p2 in WRITE or h2 is not None or (has_writer and p2 in READ)):
                     continue
+                if (p2 in READ or p2.startswith("reading helper")) and p1 not in READ:
+                    continue        # write-then-read of the same lock is the self-deadlock the write case already reports
                 if bb2 in live and l2 and set(l2) == set(l1):
                     bad.append("%s at %s" % (p2.split("::")[-1], b.loc(bb2)))
             ordinal = sorted(x[2] for x in acq if x[4] is None).index(bb1)
             ctx.check(not bad, rule, "no-self-deadlock|%s|%d" % (short(b.id), ordinal), m.where(b, bb1),
-                      "the guard taken here is released before the same lock is acquired for writing again",
-                      "the guard taken by %s is still alive when the same lock is acquired for writing (%s): the future waits for itself "
-                      "and never completes" % (p1.split("::")[-1], bad[:2]))
+                      "the guard taken here is released before the same lock is acquired again (for writing; or for reading, which queues "
+                      "behind any waiting writer of tokio's write-preferring RwLock)",
+                      "the guard taken by %s is still alive when the same lock is acquired again (%s): the future waits for itself - or, for "
+                      "read under read, for a writer that waits for it - and never completes" % (p1.split("::")[-1], bad[:2]))
     ctx.counts[rule] = n
     if n < 2:
         ctx.unverifiable(rule, "floor", "-", "expected >= 2 awaited lock acquisitions in the crate, found %d" % n)
@@ -1087,25 +1105,28 @@ def I2(ctx, rule, tb, inc_idx):
         if fcl is not None:
             pushes = [(bb, t) for bb, t in fcl.calls() if (callee_path(t) or "").endswith("Vec::<T, A>::push")]
             takes = [(bb, t) for bb, t in fcl.calls() if callee_path(t) == TAKE]
-            names = {}
-            for bb_, si_, s_ in fcl.stmts():
-                if s_["k"] != "assign":
-                    continue
-                pls = []
-                if s_["rv"]["k"] in ("ref", "copy_for_deref", "discr"):
-                    pls.append(s_["rv"]["pl"])
-                elif s_["rv"]["k"] == "use" and s_["rv"]["op"]["k"] != "const":
-                    pls.append(s_["rv"]["op"]["pl"])
-                for pl in pls:
-                    for pr in pl["p"]:
-                        if isinstance(pr, dict) and "d" in pr and pr.get("name") in ("Interrupted", "NoInterrupt"):
-                            names[pr["d"]] = pr["name"]
-            if len(names) == 1:
-                # two-variant enum: the other index is the other variant
-                (d0, n0), = names.items()
-                names[1 - d0] = "NoInterrupt" if n0 == "Interrupted" else "Interrupted"
+            def names_of(body_):
+                names = {}
+                for bb_, si_, s_ in body_.stmts():
+                    if s_["k"] != "assign":
+                        continue
+                    pls = []
+                    if s_["rv"]["k"] in ("ref", "copy_for_deref", "discr"):
+                        pls.append(s_["rv"]["pl"])
+                    elif s_["rv"]["k"] == "use" and s_["rv"]["op"]["k"] != "const":
+                        pls.append(s_["rv"]["op"]["pl"])
+                    for pl in pls:
+                        for pr in pl["p"]:
+                            if isinstance(pr, dict) and "d" in pr and pr.get("name") in ("Interrupted", "NoInterrupt"):
+                                names[pr["d"]] = pr["name"]
+                if len(names) == 1:
+                    # two-variant enum: the other index is the other variant
+                    (d0, n0), = names.items()
+                    names[1 - d0] = "NoInterrupt" if n0 == "Interrupted" else "Interrupted"
+                return names
+            names = names_of(fcl)
 
-            def variant_guard(bb):
+            def variant_guard(bb, fcl=fcl, names=names):
                 out = set()
                 for sb, vals in guards_of(fcl, bb):
                     de = switch_expr(fcl, sb)
@@ -1164,6 +1185,32 @@ def I2(ctx, rule, tb, inc_idx):
                         pe = strip_refs(expr_operand(fcl, s_["rv"]["ops"][0]))
                         if pe.kind == "agg" and pe[3] == "None":
                             cleared = True
+            if not cleared:
+                # the clearing is done by a private helper applied to the item (`let o = interrupted_fn_id_discard(o);`): it rebuilds
+                # `Interrupted(None)` in its Interrupted arm, constructs no other outcome, and what the closure passes on is its result
+                for bbh_, th_ in fcl.calls():
+                    H_ = fb.bodies.get(callee_path(th_) or "")
+                    if H_ is None or H_.kind != "fn" or (fb.fns.get(H_.id) or {}).get("public") or len(th_["args"]) != 1:
+                        continue
+                    if strip_refs(expr_operand(fcl, th_["args"][0])) != E(("arg", 2)):
+                        continue
+                    hn_ = names_of(H_)
+                    h_clear = False
+                    h_other = False
+                    for bb_, si_, s_ in H_.stmts():
+                        if s_["k"] == "assign" and s_["rv"]["k"] == "agg" and (s_["rv"].get("def") or "").endswith("PollOutcome"):
+                            pe = strip_refs(expr_operand(H_, s_["rv"]["ops"][0])) if s_["rv"]["ops"] else None
+                            if s_["rv"].get("variant") == "Interrupted" and variant_guard(bb_, H_, hn_) == {"Interrupted"} and \
+                                    pe is not None and pe.kind == "agg" and pe[3] == "None":
+                                h_clear = True
+                            else:
+                                h_other = True
+                    # the Interrupted arm of the helper returns only the rebuilt value: no def of the return place under the
+                    # Interrupted guard other than the aggregate
+                    passes_on = any(c.kind == "call" and c[1] == H_.id for c in walk_expr(strip_refs(expr_operand(fcl, get_defs(fcl).of(0)[0][3]["args"][0])))) \
+                        if len(get_defs(fcl).of(0)) == 1 and get_defs(fcl).of(0)[0][0] == "call" else False
+                    if h_clear and not h_other and passes_on and not list(H_.calls()):
+                        cleared = True
             okf = push_ok and cleared
             if not okf:
                 why = "push only for NoInterrupt ids: %s (%s); Interrupted arm carries no id: %s" % (push_ok, why_p, cleared)
